@@ -22,7 +22,7 @@ ASSUMPTIONS = [
     "delivered frames whose payload is shorter than 2 bytes (3 for 4076) are ignored: the property does not speak of them",
     "termination is decided on logical steps (read/recv calls <= 3*len+16), never on wall-clock",
 ]
-GATES = ["frames_compared", "backend:file", "backend:buffered", "backend:socket", "kind:len0", "kind:len1023",
+GATES = ["frames_compared", "runs_with_pauses", "iteration_resumed_after_pause", "backend:file", "backend:buffered", "backend:socket", "kind:len0", "kind:len1023",
          "kind:len1", "kind:len2-4076", "kind:ubxbig"]
 
 KINDS = ("defined", "defined", "defined", "unknown", "unknown", "len0", "len1", "len2", "len2-4076", "len255",
@@ -95,13 +95,16 @@ def run_case(ctx, items, backend, mode, bparam):
     libs = common.lib_errors()
     data = b"".join(it[1] for it in items)
     expected = [it[1] for it in items if it[2] is not None and streams.has_msgnum(it[2])]
-    budget = 3 * len(data) + 16
+    # pauses: item boundaries at which the underlying stream delivers nothing ONCE (a file that is still growing, a
+    # serial / socket timeout between two items); the consumer then simply iterates the same reader again
+    pauses = [o for o in bparam.get("pauses", ()) if 0 < o < len(data)]
+    budget = 3 * len(data) + 16 + 4 * len(pauses)
     params = {"items": [[k, b.hex(), (p.hex() if p is not None else None)] for k, b, p in items],
               "backend": backend, "mode": mode, "bparam": bparam}
     sock = None
     feeder = None
     if backend == "file":
-        stream = doubles.RecordingStream(data, budget=budget)
+        stream = doubles.RecordingStream(data, budget=budget, pauses=pauses)
         counter = stream
     elif backend == "buffered":
         raw = doubles.RawChunky(data, bparam["sizes"])
@@ -112,9 +115,25 @@ def run_case(ctx, items, backend, mode, bparam):
         stream = doubles.CountingStream(inner, budget)
         counter = stream
     else:
-        sock = doubles.ScriptedSocket(data, bparam["sizes"], budget=budget)
+        sizes = bparam["sizes"]
+        if pauses:  # segments end exactly at the chosen item boundaries and are followed by a receive timeout
+            sizes, prev = [], 0
+            for off in sorted(set(pauses)):
+                sizes += [off - prev, "T"]
+                prev = off
+        sock = doubles.ScriptedSocket(data, sizes, budget=budget)
         stream = sock
         counter = None
+    if pauses:
+        ctx.hit("runs_with_pauses")
+
+    def more_to_come():
+        if not pauses:
+            return False
+        if backend == "file":
+            return not stream.exhausted
+        return sock._vpos < len(data) or bool(sock._sched[sock._si:])
+
     delivered = []
     stopped = False
     problem = None
@@ -123,23 +142,40 @@ def run_case(ctx, items, backend, mode, bparam):
                          errorhandler=(lambda e: None))
         if mode in (0, 1):
             try:
-                for raw, parsed in rdr:
-                    delivered.append(bytes(raw))
-                    if len(delivered) > len(items) + 8:
-                        problem = ("no-stop", "iteration keeps delivering beyond the number of items")
+                rounds = 0
+                while True:
+                    for raw, parsed in rdr:
+                        delivered.append(bytes(raw))
+                        if len(delivered) > len(items) + 8:
+                            problem = ("no-stop", "iteration keeps delivering beyond the number of items")
+                            break
+                    else:
+                        stopped = True
+                    rounds += 1
+                    if problem or not more_to_come() or rounds > len(pauses) + 2:
                         break
-                else:
-                    stopped = True
+                    stopped = False
+                    ctx.hit("iteration_resumed_after_pause")
             except doubles.BudgetExceeded as e:
                 problem = ("no-stop", f"iteration did not stop within the read budget: {e}")
             except Exception as e:
                 problem = ("iteration-raised", f"iteration ended by {type(e).__name__}: {e}")
         else:
-            guard = len(items) * 4 + 16
+            guard = len(items) * 4 + 16 + 2 * len(pauses)
+            # raise-mode consumers: read(); next(reader); an iterator obtained once and kept across the exceptions
+            style = (len(data) + len(items)) % 3
+            it = iter(rdr) if style == 2 else rdr
+            ctx.hit(("raise_via_read", "raise_via_next", "raise_via_held_iterator")[style])
             while guard > 0:
                 guard -= 1
                 try:
-                    raw, parsed = rdr.read()
+                    if style == 0:
+                        raw, parsed = rdr.read()
+                    else:
+                        try:
+                            raw, parsed = next(it)
+                        except StopIteration:
+                            raw = parsed = None
                 except libs:
                     continue
                 except doubles.BudgetExceeded as e:
@@ -149,6 +185,9 @@ def run_case(ctx, items, backend, mode, bparam):
                     problem = ("iteration-raised", f"read() raised {type(e).__name__}: {e}")
                     break
                 if raw is None and parsed is None:
+                    if more_to_come():
+                        ctx.hit("iteration_resumed_after_pause")
+                        continue
                     stopped = True
                     break
                 delivered.append(bytes(raw))
@@ -204,7 +243,9 @@ def run_case(ctx, items, backend, mode, bparam):
                 "read_calls": (counter.calls if counter else len(sock.recv_log)), "budget": budget})
 
 
-def backend_param(rng, backend, total):
+def backend_param(rng, backend, total, bounds=()):
+    if backend == "file" and bounds and rng.random() < 0.35:
+        return {"pauses": sorted(rng.sample(list(bounds), rng.randint(1, min(3, len(bounds)))))}
     if backend in ("file", "pipe", "makefile"):
         return {}
     if backend == "buffered":
@@ -217,7 +258,10 @@ def backend_param(rng, backend, total):
         sizes = []
     else:
         sizes = [rng.choice((1, 2, 3, 5, 6, 7, 30, 100, 1029, 4096)) for _ in range(rng.randint(1, 60))]
-    return {"sizes": sizes, "bufsize": rng.choice((1, 2, 3, 7, 64, 512, 4096, 65536))}
+    out = {"sizes": sizes, "bufsize": rng.choice((1, 2, 3, 7, 64, 512, 4096, 65536))}
+    if bounds and rng.random() < 0.3:
+        out["pauses"] = sorted(rng.sample(list(bounds), rng.randint(1, min(3, len(bounds)))))
+    return out
 
 
 def run(ctx):
@@ -229,7 +273,11 @@ def run(ctx):
         backend = ("file", "buffered", "socket", "file", "buffered", "socket", "pipe", "makefile")[i % 8]
         mode = rng.choice((0, 1, 2))
         total = sum(len(b) for _, b, _ in items)
-        run_case(ctx, items, backend, mode, backend_param(rng, backend, total))
+        bounds, off = [], 0
+        for _, b, _ in items[:-1]:
+            off += len(b)
+            bounds.append(off)
+        run_case(ctx, items, backend, mode, backend_param(rng, backend, total, bounds))
 
 
 def replay(ctx, p):
